@@ -391,161 +391,17 @@ func bbMachine(rt *rapid.T, r *ev.Rec, o bbMachineOpts, c05 *c05State) (w *bbWor
 	}
 
 	if o.rounds {
-		// A height that needs several rounds, as the consensus states drive it when nodes disagree or lag: a suffrage-confirm
-		// round that (mostly) does not finish, later stage points of the same height whose votes split (draws, sometimes
-		// majorities), the first votes for a still later stage point, stragglers (late ballots for earlier points of the
-		// height), then the remaining votes for the later stage point. Everything is drawn: height, rounds, walk over stage
-		// points, cuts, voters, kinds of the late ballots, and other actions in between.
-		severalRounds := func(t *rapid.T) {
-			h := int64(rapid.IntRange(33, 35).Draw(t, "roundsHeight"))
-			r0 := uint64(rapid.IntRange(0, 1).Draw(t, "firstRound"))
-
-			w.mu.Lock()
-			w.history = append(w.history, fmt.Sprintf("%s %d from round %d", bbSeveralRoundsMark, h, r0))
-			w.mu.Unlock()
-
-			vote := func(kind string, hh int64, rr uint64, node int) {
-				if _, _, err := w.vote(bbBallotDesc{Height: hh, Round: rr, Kind: kind, Node: node, ExpelBy: "full"}); err != nil {
-					t.Fatalf("Vote error: %v", err)
-				}
-			}
-
-			between := func() {
-				switch rapid.IntRange(0, 9).Draw(t, "between") {
-				case 0:
-					w.history = append(w.history, "count")
-					w.box.Count()
-				case 1:
-					if _, _, err := w.vote(genBBDesc(w).Draw(t, "ballot")); err != nil {
-						t.Fatalf("Vote error: %v", err)
-					}
-				case 2:
-					check()
-				}
-			}
-
-			type stage struct {
-				r      uint64
-				accept bool
-			}
-
-			kindOf := func(s stage) string {
-				if s.accept {
-					return "accept"
-				}
-
-				return "init"
-			}
-
-			next := func(s stage, toAccept bool) stage {
-				if toAccept && !s.accept {
-					return stage{r: s.r, accept: true}
-				}
-
-				return stage{r: s.r + 1}
-			}
-
-			// (1) suffrage-confirm ballots for (h,r0) from a few nodes
-			k1 := rapid.SampledFrom([]int{1, 1, 2, w.n - 1}).Draw(t, "scVoters")
-			s1 := rapid.IntRange(0, w.n-1).Draw(t, "scStart")
-			sckind := rapid.SampledFrom([]string{"sc", "sc", "sc", "scX"}).Draw(t, "scKind")
-
-			for i := 0; i < k1; i++ {
-				vote(sckind, h, r0, (s1+i)%w.n)
-			}
-
-			between()
-
-			// (2) the height goes on: later stage points, the suffrage splits between two facts at each of them
-			cur := stage{r: r0}
-			m := rapid.IntRange(1, 3).Draw(t, "laterPoints")
-
-			for j := 0; j < m; j++ {
-				cur = next(cur, rapid.Bool().Draw(t, "toAccept"))
-
-				cut := rapid.IntRange(0, w.n).Draw(t, "cut")
-				if rapid.IntRange(0, 3).Draw(t, "evenSplit") > 0 {
-					cut = w.n / 2
-				}
-
-				for i := 0; i < w.n; i++ {
-					kind := kindOf(cur)
-					if i >= cut {
-						kind += "X"
-					}
-
-					vote(kind, h, cur.r, i)
-				}
-
-				between()
-			}
-
-			// (3) first votes for a still later stage point
-			qh, q := h, stage{r: cur.r + 1}
-
-			switch rapid.IntRange(0, 7).Draw(t, "laterPoint") {
-			case 0:
-				qh, q = h+1, stage{}
-			case 1:
-				q = next(cur, true)
-			}
-
-			k3 := rapid.IntRange(1, w.n-1).Draw(t, "firstVoters")
-			s3 := rapid.IntRange(0, w.n-1).Draw(t, "firstStart")
-
-			for i := 0; i < k3; i++ {
-				vote(kindOf(q), qh, q.r, (s3+i)%w.n)
-			}
-
-			between()
-
-			// (4) stragglers: late ballots for earlier points of the height
-			nlate := rapid.IntRange(1, 2).Draw(t, "lateBallots")
-
-			for j := 0; j < nlate; j++ {
-				kind := rapid.SampledFrom([]string{"sc", "sc", "sc", "sc", "scX", "init", "accept"}).Draw(t, "lateKind")
-				rr := r0
-
-				if rapid.IntRange(0, 3).Draw(t, "lateOtherRound") == 0 {
-					rr = uint64(rapid.IntRange(int(r0), int(cur.r)).Draw(t, "lateRound"))
-				}
-
-				node := (s3 + k3 + rapid.IntRange(0, w.n-1-k3).Draw(t, "lateNode")) % w.n
-				if rapid.IntRange(0, 4).Draw(t, "lateAnyNode") == 0 {
-					node = rapid.IntRange(0, w.n-1).Draw(t, "lateNode")
-				}
-
-				vote(kind, h, rr, node)
-			}
-
-			between()
-
-			// (5) the remaining votes for the later stage point
-			cutq := rapid.SampledFrom([]int{w.n, w.n, w.n, w.n - 1, w.n / 2}).Draw(t, "laterCut")
-
-			for i := k3; i < w.n; i++ {
-				kind := kindOf(q)
-				if i >= cutq {
-					kind += "X"
-				}
-
-				vote(kind, qh, q.r, (s3+i)%w.n)
-			}
-
-			check()
-		}
-
 		actions["severalRounds"] = func(t *rapid.T) {
 			if w.n < 3 {
 				t.Skip("suffrage-confirm ballots need >= 3 nodes")
 			}
 
-			severalRounds(t)
+			bbSeveralRounds(t, w, check)
 		}
 
 		// sometimes the history opens with it: the box is fresh then and every stage point of the height is still votable
 		if w.n >= 3 && rapid.Bool().Draw(rt, "openWithSeveralRounds") {
-			severalRounds(rt)
+			bbSeveralRounds(rt, w, check)
 		}
 	}
 
@@ -557,6 +413,170 @@ func bbMachine(rt *rapid.T, r *ev.Rec, o bbMachineOpts, c05 *c05State) (w *bbWor
 	check()
 
 	return w, counted
+}
+
+// bbSeveralRounds plays a height that needs several rounds, as the consensus states drive it when nodes disagree or lag: a
+// suffrage-confirm round that (mostly) does not finish, later stage points of the same height whose votes split between two
+// or three facts (draws, sometimes majorities), the first votes for a still later stage point, stragglers (late ballots for
+// earlier points of the height), then the remaining votes for the later stage point. Everything is drawn: height, rounds,
+// the walk over stage points, the splits, voters, kinds of the late ballots, quiet moments and other actions in between.
+func bbSeveralRounds(t *rapid.T, w *bbWorld, check func()) {
+	h := int64(rapid.IntRange(33, 35).Draw(t, "roundsHeight"))
+	r0 := uint64(rapid.IntRange(0, 1).Draw(t, "firstRound"))
+
+	w.mu.Lock()
+	w.history = append(w.history, fmt.Sprintf("%s %d from round %d", bbSeveralRoundsMark, h, r0))
+	w.mu.Unlock()
+
+	vote := func(kind string, hh int64, rr uint64, node int) {
+		if _, _, err := w.vote(bbBallotDesc{Height: hh, Round: rr, Kind: kind, Node: node, ExpelBy: "full"}); err != nil {
+			t.Fatalf("Vote error: %v", err)
+		}
+	}
+
+	// between two bursts of ballots: mostly a quiet moment (the box finishes its deferred counting), sometimes another action
+	between := func() {
+		switch rapid.IntRange(0, 11).Draw(t, "between") {
+		case 0:
+			w.history = append(w.history, "count")
+			w.box.Count()
+		case 1:
+			if _, _, err := w.vote(genBBDesc(w).Draw(t, "ballot")); err != nil {
+				t.Fatalf("Vote error: %v", err)
+			}
+		case 2:
+			check()
+		case 3, 4: // the next burst follows at once
+		default:
+			w.settle()
+		}
+	}
+
+	type stage struct {
+		r      uint64
+		accept bool
+	}
+
+	kindOf := func(s stage) string {
+		if s.accept {
+			return "accept"
+		}
+
+		return "init"
+	}
+
+	next := func(s stage, toAccept bool) stage {
+		if toAccept && !s.accept {
+			return stage{r: s.r, accept: true}
+		}
+
+		return stage{r: s.r + 1}
+	}
+
+	suffix := []string{"", "X", "Y"}
+
+	// (1) suffrage-confirm ballots for (h,r0) from a few nodes
+	k1 := rapid.SampledFrom([]int{1, 1, 2, w.n - 1}).Draw(t, "scVoters")
+	s1 := rapid.IntRange(0, w.n-1).Draw(t, "scStart")
+	sckind := rapid.SampledFrom([]string{"sc", "sc", "sc", "scX"}).Draw(t, "scKind")
+
+	for i := 0; i < k1; i++ {
+		vote(sckind, h, r0, (s1+i)%w.n)
+	}
+
+	between()
+
+	// (2) the height goes on: later stage points, the suffrage splits between two or three facts at each of them
+	cur := stage{r: r0}
+	m := rapid.SampledFrom([]int{1, 2, 2, 3, 3}).Draw(t, "laterPoints")
+
+	for j := 0; j < m; j++ {
+		cur = next(cur, rapid.IntRange(0, 3).Draw(t, "toAccept") == 0)
+		ways := rapid.IntRange(2, 3).Draw(t, "ways")
+
+		cut := -1 // -1: the nodes take the facts in turn (the most even split)
+		if rapid.IntRange(0, 5).Draw(t, "unevenSplit") == 0 {
+			cut = rapid.IntRange(0, w.n).Draw(t, "cut")
+		}
+
+		for i := 0; i < w.n; i++ {
+			fact := i % ways
+
+			if cut >= 0 {
+				fact = 0
+
+				if i >= cut {
+					fact = 1 + (i-cut)%(ways-1)
+				}
+			}
+
+			vote(kindOf(cur)+suffix[fact], h, cur.r, i)
+
+			if rapid.IntRange(0, 7).Draw(t, "pause") == 0 {
+				w.settle()
+			}
+		}
+
+		between()
+	}
+
+	// (3) first votes for a still later stage point
+	qh, q := h, stage{r: cur.r + 1}
+
+	switch rapid.IntRange(0, 9).Draw(t, "laterPoint") {
+	case 0:
+		qh, q = h+1, stage{}
+	case 1:
+		q = next(cur, true)
+	}
+
+	k3 := rapid.SampledFrom([]int{1, 1, 2, 0}).Draw(t, "firstVoters") // 0: any number
+	if k3 < 1 || k3 > w.n-1 {
+		k3 = rapid.IntRange(1, w.n-1).Draw(t, "firstVotersAny")
+	}
+
+	s3 := rapid.IntRange(0, w.n-1).Draw(t, "firstStart")
+
+	for i := 0; i < k3; i++ {
+		vote(kindOf(q), qh, q.r, (s3+i)%w.n)
+	}
+
+	between()
+
+	// (4) stragglers: late ballots for earlier points of the height
+	nlate := rapid.IntRange(1, 2).Draw(t, "lateBallots")
+
+	for j := 0; j < nlate; j++ {
+		kind := rapid.SampledFrom([]string{"sc", "sc", "sc", "sc", "sc", "sc", "scX", "scX", "init", "accept"}).Draw(t, "lateKind")
+		rr := r0
+
+		if rapid.IntRange(0, 4).Draw(t, "lateOtherRound") == 0 {
+			rr = uint64(rapid.IntRange(int(r0), int(cur.r)).Draw(t, "lateRound"))
+		}
+
+		node := (s3 + k3 + rapid.IntRange(0, w.n-1-k3).Draw(t, "lateNode")) % w.n
+		if rapid.IntRange(0, 5).Draw(t, "lateAnyNode") == 0 {
+			node = rapid.IntRange(0, w.n-1).Draw(t, "lateNode")
+		}
+
+		vote(kind, h, rr, node)
+	}
+
+	between()
+
+	// (5) the remaining votes for the later stage point
+	cutq := rapid.SampledFrom([]int{w.n, w.n, w.n, w.n - 1, w.n / 2}).Draw(t, "laterCut")
+
+	for i := k3; i < w.n; i++ {
+		kind := kindOf(q)
+		if i >= cutq {
+			kind += "X"
+		}
+
+		vote(kind, qh, q.r, (s3+i)%w.n)
+	}
+
+	check()
 }
 
 func TestC04(t *testing.T) {
